@@ -144,7 +144,7 @@ pub fn phase(r: usize, nr: usize) -> usize {
     }
 }
 /// SPECIFICATION of the fixsliced round-key format, as a function of the FIPS-197 round keys rk[0..=nr]:
-/// words 8r..8r+8 = bitslice(k', k', .., k') (the crate's bitslice, == the model placement m_slice by fx_bitslice) with k' = InvShiftRows^phase(r)(rk[r]) XOR (0x63 in every byte if r >= 1)
+/// words 8r..8r+8 = bitslice(k', k', .., k') (fast_slice == the crate's bitslice == the model placement m_slice, by fx_bitslice) with k' = InvShiftRows^phase(r)(rk[r]) XOR (0x63 in every byte if r >= 1)
 /// (0x63 = the four NOTs that sub_bytes() omits, "sub_bytes_nots").
 pub fn m_keys<const N: usize>(rk: &[[u8; 16]; 15], nr: usize) -> [W; N] {
     let mut out = [0 as W; N];
@@ -158,8 +158,7 @@ pub fn m_keys<const N: usize>(rk: &[[u8; 16]; 15], nr: usize) -> [W; N] {
                 i += 1;
             }
         }
-        let mut s = [0 as W; 8];
-        real_bitslice(&mut s, &[k; NB]);
+        let s = fast_slice(&[k; NB]);
         let mut p = 0;
         while p < 8 {
             out[8 * r + p] = s[p];
@@ -188,79 +187,65 @@ pub fn take_rk(inp: &[u8], off: usize, nr: usize) -> [[u8; 16]; 15] {
 // proved for the family holds for the real S-box; it keeps every Ackermann table at <= 64 entries and the number of
 // compared call pairs linear in the number of layers.  Layers are counted by static call counters (concrete during
 // symbolic execution); natively every slot is the concrete S-box.
-uf1!(uf_s0, u8, u8, [B0], ra::sbox);
-uf1!(uf_s1, u8, u8, [B0], ra::sbox);
-uf1!(uf_s2, u8, u8, [B0], ra::sbox);
-uf1!(uf_s3, u8, u8, [B0], ra::sbox);
-uf1!(uf_s4, u8, u8, [B0], ra::sbox);
-uf1!(uf_s5, u8, u8, [B0], ra::sbox);
-uf1!(uf_s6, u8, u8, [B0], ra::sbox);
-uf1!(uf_s7, u8, u8, [B0], ra::sbox);
-uf1!(uf_s8, u8, u8, [B0], ra::sbox);
-uf1!(uf_s9, u8, u8, [B0], ra::sbox);
-uf1!(uf_s10, u8, u8, [B0], ra::sbox);
-uf1!(uf_s11, u8, u8, [B0], ra::sbox);
-uf1!(uf_s12, u8, u8, [B0], ra::sbox);
-uf1!(uf_s13, u8, u8, [B0], ra::sbox);
-uf1!(uf_s14, u8, u8, [B0], ra::sbox);
-uf1!(uf_s15, u8, u8, [B0], ra::sbox);
-uf1!(uf_i0, u8, u8, [B0], ra::inv_sbox);
-uf1!(uf_i1, u8, u8, [B0], ra::inv_sbox);
-uf1!(uf_i2, u8, u8, [B0], ra::inv_sbox);
-uf1!(uf_i3, u8, u8, [B0], ra::inv_sbox);
-uf1!(uf_i4, u8, u8, [B0], ra::inv_sbox);
-uf1!(uf_i5, u8, u8, [B0], ra::inv_sbox);
-uf1!(uf_i6, u8, u8, [B0], ra::inv_sbox);
-uf1!(uf_i7, u8, u8, [B0], ra::inv_sbox);
-uf1!(uf_i8, u8, u8, [B0], ra::inv_sbox);
-uf1!(uf_i9, u8, u8, [B0], ra::inv_sbox);
-uf1!(uf_i10, u8, u8, [B0], ra::inv_sbox);
-uf1!(uf_i11, u8, u8, [B0], ra::inv_sbox);
-uf1!(uf_i12, u8, u8, [B0], ra::inv_sbox);
-uf1!(uf_i13, u8, u8, [B0], ra::inv_sbox);
-uf1!(uf_i14, u8, u8, [B0], ra::inv_sbox);
-uf1!(uf_i15, u8, u8, [B0], ra::inv_sbox);
-pub fn uf_sb_slot(slot: usize, x: u8) -> u8 {
-    match slot {
-        0 => uf_s0::call(x),
-        1 => uf_s1::call(x),
-        2 => uf_s2::call(x),
-        3 => uf_s3::call(x),
-        4 => uf_s4::call(x),
-        5 => uf_s5::call(x),
-        6 => uf_s6::call(x),
-        7 => uf_s7::call(x),
-        8 => uf_s8::call(x),
-        9 => uf_s9::call(x),
-        10 => uf_s10::call(x),
-        11 => uf_s11::call(x),
-        12 => uf_s12::call(x),
-        13 => uf_s13::call(x),
-        14 => uf_s14::call(x),
-        15 => uf_s15::call(x),
-        _ => unreachable!(),
-    }
+// Implementation (Ackermann's reduction as in harness/common/uf.rs, DESIGN.md 2.3): a call returns a fresh symbolic byte
+// constrained to agree with every earlier call OF THE SAME SLOT on an equal argument.  The log of a slot (<= 32 entries:
+// 16 implementation + 16 oracle calls) is copied out of / back into the static table once per call, so that the comparison
+// loop runs on a local value (statics are reached through raw pointers, whose validity checks would dominate the query).
+pub const SLOTS: usize = 16;
+pub const SLOT_CAP: usize = 32;
+#[derive(Clone, Copy)]
+pub struct Slot {
+    pub n: usize,
+    pub inp: [u8; SLOT_CAP],
+    pub out: [u8; SLOT_CAP],
 }
-pub fn uf_isb_slot(slot: usize, x: u8) -> u8 {
-    match slot {
-        0 => uf_i0::call(x),
-        1 => uf_i1::call(x),
-        2 => uf_i2::call(x),
-        3 => uf_i3::call(x),
-        4 => uf_i4::call(x),
-        5 => uf_i5::call(x),
-        6 => uf_i6::call(x),
-        7 => uf_i7::call(x),
-        8 => uf_i8::call(x),
-        9 => uf_i9::call(x),
-        10 => uf_i10::call(x),
-        11 => uf_i11::call(x),
-        12 => uf_i12::call(x),
-        13 => uf_i13::call(x),
-        14 => uf_i14::call(x),
-        15 => uf_i15::call(x),
-        _ => unreachable!(),
+pub const EMPTY_SLOT: Slot = Slot { n: 0, inp: [0; SLOT_CAP], out: [0; SLOT_CAP] };
+#[cfg(kani)]
+pub static mut TAB_S: [Slot; SLOTS] = [EMPTY_SLOT; SLOTS];
+#[cfg(kani)]
+pub static mut TAB_I: [Slot; SLOTS] = [EMPTY_SLOT; SLOTS];
+#[cfg(kani)]
+fn slot_call(mut t: Slot, x: u8) -> (Slot, u8) {
+    let y: u8 = kani::any();
+    let n = t.n;
+    kani::assert(n < SLOT_CAP, "VERIF_UF_CAPACITY");
+    let mut ok = true;
+    let mut k = 0;
+    while k < n {
+        ok &= (t.inp[k] != x) | (t.out[k] == y);
+        k += 1;
     }
+    t.inp[n] = x;
+    t.out[n] = y;
+    t.n = n + 1;
+    kani::assume(ok);
+    (t, y)
+}
+#[cfg(kani)]
+pub fn uf_sb_slot(slot: usize, x: u8) -> u8 {
+    kani::assert(slot < SLOTS, "VERIF_UF_CAPACITY");
+    let (t, y) = slot_call(unsafe { TAB_S[slot] }, x);
+    unsafe {
+        TAB_S[slot] = t;
+    }
+    y
+}
+#[cfg(kani)]
+pub fn uf_isb_slot(slot: usize, x: u8) -> u8 {
+    kani::assert(slot < SLOTS, "VERIF_UF_CAPACITY");
+    let (t, y) = slot_call(unsafe { TAB_I[slot] }, x);
+    unsafe {
+        TAB_I[slot] = t;
+    }
+    y
+}
+#[cfg(not(kani))]
+pub fn uf_sb_slot(_slot: usize, x: u8) -> u8 {
+    ra::sbox(x)
+}
+#[cfg(not(kani))]
+pub fn uf_isb_slot(_slot: usize, x: u8) -> u8 {
+    ra::inv_sbox(x)
 }
 #[cfg(kani)]
 pub static mut IMPL_LAYERS: usize = 0; // S-box layers executed by the implementation side so far (stub calls)
@@ -312,22 +297,16 @@ fn copy8(dst: &mut [W], src: &[W; 8]) {
         p += 1;
     }
 }
-// Stub shapes.  They are written with the crate's OWN inv_bitslice / bitslice (few word operations) rather than with the
-// bit-by-bit model m_unslice / m_slice (thousands of program steps per call); fx_bitslice / fx_inv_bitslice prove the two
-// pairs equal and mutually inverse, so "bitslice o F o inv_bitslice" below is "m_slice o F o m_unslice".
+// Stub shapes: bitslice o F o inv_bitslice, written with the loop-free transcriptions fast_slice / fast_unslice of the
+// crate's bitslice / inv_bitslice (same delta-swap algorithm on plain arrays).  fx_bitslice / fx_inv_bitslice prove, for all
+// inputs, crate function == transcription == bit-by-bit model placement (m_slice / m_unslice), and that the pair is
+// mutually inverse.  (The crate's own functions cost ~10^4 program steps per call through hybrid-array, the bit-by-bit model
+// even more; a wiring query makes ~50 such calls.)
 fn unslice_real(state: &[W]) -> [[u8; 16]; NB] {
-    let bb = inv_bitslice(state);
-    let mut x = [[0u8; 16]; NB];
-    let mut l = 0;
-    while l < NB {
-        x[l] = bb.0[l].0;
-        l += 1;
-    }
-    x
+    fast_unslice(state)
 }
 fn slice_real_into(state: &mut [W], y: &[[u8; 16]; NB]) {
-    let mut out = [0 as W; 8];
-    real_bitslice(&mut out, y);
+    let out = fast_slice(y);
     copy8(state, &out);
 }
 /// bitslice o (f(lane, byte) on every byte of every lane) o inv_bitslice -- the shape of every S-box stub; with
@@ -357,12 +336,11 @@ pub fn set_lane(_l: usize) {
         LANE = _l;
     }
 }
-/// block-wise layer restricted to one lane: lane LANE = f(block of lane LANE), other lanes havoc
+/// block-wise layer restricted to one lane: lane LANE = f(block of lane LANE), the bits of all other lanes havoc
 #[cfg(kani)]
 fn lin_lane_with<F: Fn(&[u8; 16]) -> [u8; 16]>(state: &mut [W], f: F) {
     let lane = unsafe { LANE };
-    let x = unslice_real(state);
-    let mut y: [[u8; 16]; NB] = kani::any();
+    let x = fast_unslice(state);
     let mut xb = [0u8; 16];
     let mut l = 0;
     while l < NB {
@@ -372,14 +350,14 @@ fn lin_lane_with<F: Fn(&[u8; 16]) -> [u8; 16]>(state: &mut [W], f: F) {
         l += 1;
     }
     let yb = f(&xb);
-    l = 0;
-    while l < NB {
-        if l == lane {
-            y[l] = yb;
-        }
-        l += 1;
+    let lw = fast_slice(&[yb; NB]); // every lane = yb; only the bits of lane LANE are kept
+    let mask: W = LANE0_MASK << (lane as u32);
+    let h: [W; 8] = kani::any();
+    let mut p = 0;
+    while p < 8 {
+        state[p] = (h[p] & !mask) | (lw[p] & mask);
+        p += 1;
     }
-    slice_real_into(state, &y);
 }
 #[cfg(kani)]
 fn one_lane_with<F: Fn(u8) -> u8>(state: &mut [W], f: F) {
@@ -484,6 +462,7 @@ verif_harness! {
         let mut s = [0 as W; 8];
         real_bitslice(&mut s, &x);
         vcheck!(eq_words(&s, &m_slice(&x)));
+        vcheck!(eq_words(&s, &fast_slice(&x)));
         vcheck!(m_unslice(&s) == x);
         Some(eq_blocks(&inv_bitslice(&s), &x))
     }
@@ -497,6 +476,7 @@ verif_harness! {
         let y = inv_bitslice(&s);
         let m = m_unslice(&s);
         vcheck!(eq_blocks(&y, &m));
+        vcheck!(fast_unslice(&s) == m);
         vcheck!(eq_words(&m_slice(&m), &s));
         let mut t = [0 as W; 8];
         real_bitslice(&mut t, &m);
@@ -778,3 +758,4 @@ verif_harness! {
         Some(imc_ks(&x, 0) == ra::inv_mix_columns(&x))
     }
 }
+
